@@ -74,14 +74,23 @@ def memory_obligations(ctx: Any, R: str) -> List[Ob]:
     return obs
 
 
+def dispatching_function(ctx: Any) -> FuncInfo:
+    """The method of the listener that hands a decoded datagram on (found by what it calls, not by its name)."""
+    lst = ctx.prog.cls('zeroconf._listener.AsyncListener')
+    cands = [m for m in lst.methods.values() if any(isinstance(c, ast.Call) and call_name(c) == 'async_updates_from_response' for c in walk_local_ordered(m.node))]
+    if len(cands) != 1:
+        raise AnalysisError(f'anchor vanished: the listener method that dispatches decoded datagrams (found {[m.name for m in cands]})')
+    return cands[0]
+
+
 def dispatch_obligations(ctx: Any, R: str, only: str = '') -> List[Ob]:
     """Where a datagram that passed the duplicate guard goes: a valid response to the record manager, a valid query to the query
     handler when the registry has entries, everything else nowhere -- decision table of the datagram processor over
     (decoded correctly, is a query, registry has entries)."""
     prog = ctx.prog
-    f = prog.func(PD)
+    f = dispatching_function(ctx)
     me = f.params[0]
-    p_data = f.params[4]
+    p_data = next((norm(c.args[0]) for c in walk_local_ordered(f.node) if isinstance(c, ast.Call) and call_name(c) == 'DNSIncoming' and c.args), 'data')
     dispatch = {'async_updates_from_response': 'RESPONSE', 'handle_query_or_defer': 'QUERY'}
 
     def eff(node: Any, evl: Any) -> List[Any]:
